@@ -12,9 +12,53 @@ def sh(cmd, cwd=None):
     return r.returncode, r.stdout.decode(errors="replace")
 
 
+def record(d, ids, res):
+    fired = sorted(p for p, r in res.items() if r["exit"] == 1)
+    errs = sorted(p for p, r in res.items() if r["exit"] not in (0, 1))
+    mp = os.path.join(d, "meta.json")
+    meta = json.load(open(mp)) if os.path.exists(mp) else {}
+    meta["detection"] = {"checks_run": ids, "fired": fired, "analysis_errors": errs,
+                         "detail": {p: res[p] for p in fired + errs}}
+    json.dump(meta, open(mp, "w"), indent=1)
+    print(os.path.basename(d), "fired:", fired, "errors:", errs)
+    return fired, errs
+
+
+def scratch(d, ids):
+    """same, on a scratch copy of /repo/nixio (NIXSA_REPO) instead of /repo's working tree: can run in parallel"""
+    import tempfile, shutil
+    man = json.load(open(os.path.join(VERIF, "MANIFEST.json")))
+    if not ids or ids == ["all"]:
+        ids = [c["property_id"] for c in man["checks"]]
+    tmp = tempfile.mkdtemp(prefix="sd-")
+    try:
+        shutil.copytree(os.path.join(os.environ.get("BD_SRC", "/repo"), "nixio"), os.path.join(tmp, "nixio"))
+        rc, out = sh("git apply --whitespace=nowarn %s/patch.diff" % d, cwd=tmp)
+        if rc:
+            print(os.path.basename(d), "patch does not apply: " + out[-300:])
+            return 2
+
+        def run(pid):
+            env = "NIXSA_REPO=%s NIXSA_EVIDENCE_DIR=%s/ev-%s" % (tmp, tmp, pid)
+            rc, out = sh("%s ./check %s --tier quick" % (env, pid), cwd=VERIF)
+            lines = [l for l in out.splitlines() if l.startswith("VIOLATION") or l.startswith("ANALYSIS-ERROR")]
+            firstmsg = [l for l in out.splitlines() if re.match(r"^C\d+\.R\w+ ", l)][:3]
+            return pid, {"exit": rc, "lines": [l.replace(tmp, "<scratch>") for l in lines[:4]], "messages": [m[:300] for m in firstmsg]}
+        res = {}
+        with ThreadPoolExecutor(int(os.environ.get("JOBS", "5"))) as ex:
+            for pid, r in ex.map(run, ids):
+                res[pid] = r
+        record(d, ids, res)
+        return 0
+    finally:
+        shutil.rmtree(tmp, ignore_errors=True)
+
+
 def main():
     d = os.path.abspath(sys.argv[1])
-    ids = sys.argv[2:]
+    ids = [a for a in sys.argv[2:] if a != "--scratch"]
+    if "--scratch" in sys.argv:
+        return scratch(d, ids)
     man = json.load(open(os.path.join(VERIF, "MANIFEST.json")))
     claimed = [c["property_id"] for c in man["checks"]]
     if not ids or ids == ["all"]:
